@@ -123,6 +123,55 @@ func checkConcurrentFailureReports(p *core.Program, r *core.Report) {
 	})
 	r.Min("ReportFailure calls in Core.forward", 1)
 	r.Count("ReportFailure calls in Core.forward", nAll)
+	// every failed transmission is reported, whatever the other transmissions of the round did: a report made
+	// after the goroutines were joined must be on every path from the join to the return, not only on the
+	// "nothing was sent" branch (the algorithm recorded the peer as served when it selected it and relies on the
+	// report to make it eligible again); a report inside the goroutine must depend on nothing but the send's error
+	var waits []ssa.Instruction
+	core.EachInstr(fwdFn, func(in ssa.Instruction) {
+		if c, ok := in.(*ssa.Call); ok && core.CalleeName(c) == "sync.WaitGroup.Wait" {
+			waits = append(waits, in)
+		}
+	})
+	core.EachInstrDeep(fwdFn, func(f *ssa.Function, in ssa.Instruction) {
+		c, ok := in.(*ssa.Call)
+		if !ok || !c.Common().IsInvoke() || c.Common().Method.Name() != "ReportFailure" {
+			return
+		}
+		key := "failure-always-reported/" + fname(f)
+		rule := "a failed transmission is reported to the routing algorithm regardless of how the other transmissions of the same round ended"
+		if f == fwdFn {
+			l := core.InnermostLoop(core.Loops(fwdFn), in.Block())
+			okAll := l != nil && len(waits) > 0
+			var miss ssa.Instruction
+			for _, w := range waits {
+				if l == nil {
+					break
+				}
+				if ok2, ex := core.MustPassAfter(w, func(i ssa.Instruction) bool { return i.Block() == l.Header }, core.IsReturn); !ok2 {
+					okAll, miss = false, ex
+				}
+			}
+			d := ""
+			if miss != nil {
+				d = "the return at " + p.Pos(miss.Pos()) + " is reachable from wg.Wait() without passing the reporting loop: failures of a round in which another transmission succeeded are dropped, the failed peer stays in the sent list for ever"
+			}
+			r.Check(okAll, key, rule, p.Pos(in.Pos()), "", d)
+			return
+		}
+		// inside a per-peer goroutine: only conditions on the Send's own error may guard the report
+		okG := true
+		var extra []string
+		for _, cd := range core.DominatingConds(in.Block()) {
+			x, _, isNilCmp := core.NilCmp(cd)
+			if isNilCmp && isErrorType(x.Type()) {
+				continue
+			}
+			okG = false
+			extra = append(extra, valStr(cd.V))
+		}
+		r.Check(okG, key, rule, p.Pos(in.Pos()), "", "the report is additionally guarded by "+strings.Join(extra, ", "))
+	})
 	r.Analysed["ReportFailure_calls_in_per_peer_goroutines"] = nSites
 
 	checkLoopVarCapture(p, r)
